@@ -218,6 +218,41 @@ def run(ctx):
             if idx == 3:
                 ctx.sample({'kind': 'text', 'mode': mode, 'actual': sa, 'reference': se, 'opts': o,
                             'outcome': got, 'files_written': files})
+        # ------------------------------------------------ the reference does not exist yet: the message tells how to
+        # initialise it from the actual content, and the file it names holds exactly the string that was passed
+        for it in range(40 if ctx.quick else 800):
+            A, _E = T.gen_pair(rng)
+            sa = join_text(rng, A) + rng.choice(['', '\n', '\n\n', '\r\n', '\x0cend'])
+            refp = os.path.join(data, 'newref%d.txt' % (it % 3))
+            if os.path.exists(refp):
+                os.remove(refp)
+            case = {'kind': 'missing-reference', 'actual': sa}
+            ctx.count(('NR', sa), True)
+            ctx.bump('missing_reference')
+            try:
+                rt.assertStringCorrect(sa, refp)
+                ctx.fail(case, 'an assertion against a reference that does not exist passed')
+                continue
+            except Failed as ex:
+                msg = str(ex)
+            m_ = re.search(r'Initialize (?:\S+ )?from actual content with:\n\s+\S+ (\S+) (\S+)', msg)
+            if not m_:
+                ctx.fail(case, 'the message does not say how to initialise the missing reference: %r' % msg[:300])
+            else:
+                fa, fb = m_.group(1), m_.group(2)
+                if fb != refp:
+                    ctx.fail(case, 'the message names %s as the reference to create, not %s' % (fb, refp))
+                if not os.path.exists(fa) or os.path.dirname(fa) != tmp:
+                    ctx.fail(case, 'the file to copy from (%s) is missing or not in the temporary directory' % fa)
+                else:
+                    got_ = open(fa, encoding='utf-8', newline='').read()
+                    if got_ != sa:
+                        ctx.fail(case, 'the file named as actual content holds %r, the actual string is %r' % (got_, sa))
+            if os.path.exists(refp):
+                ctx.fail(case, 'a normal-mode assertion created the missing reference file')
+                os.remove(refp)
+            for f in os.listdir(tmp):
+                os.remove(os.path.join(tmp, f))
         # ------------------------------------------------ the actual file itself lives in the temporary directory
         # (a program under test that writes its output there), under names like the ones the library uses
         nt = 120 if ctx.quick else 2500
